@@ -4,6 +4,7 @@ use crate::report::Tier;
 
 pub mod c01;
 pub mod c02;
+pub mod c03;
 pub mod c04;
 pub mod c05;
 pub mod c06;
@@ -14,7 +15,9 @@ pub mod c11;
 pub mod c12;
 pub mod c13;
 pub mod c15;
+pub mod c16;
 pub mod c17;
+pub mod c18;
 pub mod c19;
 pub mod seeds;
 
@@ -23,6 +26,7 @@ pub fn run(prop: &str, tier: Tier, seed: u64) -> Option<i32> {
     Some(match prop {
         "C01" => c01::run(tier, seed),
         "C02" => c02::run(tier, seed),
+        "C03" => c03::run(tier, seed),
         "C04" => c04::run(tier, seed),
         "C05" => c05::run(tier, seed),
         "C08" => c02::run_c08(tier, seed),
@@ -34,7 +38,9 @@ pub fn run(prop: &str, tier: Tier, seed: u64) -> Option<i32> {
         "C12" => c12::run(tier, seed),
         "C13" => c13::run(tier, seed),
         "C15" => c15::run(tier, seed),
+        "C16" => c16::run(tier, seed),
         "C17" => c17::run(tier, seed),
+        "C18" => c18::run(tier, seed),
         "C19" => c19::run(tier, seed),
         _ => return None,
     })
@@ -44,6 +50,7 @@ pub fn replay(prop: &str, witness: &serde_json::Value) -> Option<i32> {
     Some(match prop {
         "C01" => c01::replay(witness),
         "C02" | "C08" => c02::replay(witness),
+        "C03" => c03::replay(witness),
         "C04" => c04::replay(witness),
         "C05" => c05::replay(witness),
         "C06" => c06::replay(witness),
@@ -54,7 +61,9 @@ pub fn replay(prop: &str, witness: &serde_json::Value) -> Option<i32> {
         "C12" => c12::replay(witness),
         "C13" => c13::replay(witness),
         "C15" => c15::replay(witness),
+        "C16" => c16::replay(witness),
         "C17" => c17::replay(witness),
+        "C18" => c18::replay(witness),
         "C19" => c19::replay(witness),
         _ => return None,
     })
